@@ -20,11 +20,11 @@ def S(xs):
 
 ALL_KINDS = ("audio", "video", "application", "image")
 ALL_CFG = dict(Modes=("WebRtc", "Srtp", "Rtp"), Compats=("Standard", "LegacySip"), Caps=("default", "pcmu", "custom"),
-               Pres=("none", "audio", "audio_video", "video_audio", "dc"), Negs=("first", "subsequent", "grow"))
+               Pres=("none", "audio", "audio_video", "video_audio", "dc"), Negs=("first", "subsequent", "grow", "swapped"))
 
 
 def scen(label, maxsec, menus, sim=None, depth=None, **kw):
-    d = dict(label=label, MaxSec=maxsec, Kinds=ALL_KINDS, MidSchemes=("numeric", "named", "absent"),
+    d = dict(label=label, MinSec=1, MaxSec=maxsec, Sims=(False,), Port0s=(False,), Extras=("none",), Kinds=ALL_KINDS, MidSchemes=("numeric", "named", "absent"),
              BundleModes=("none", "all"), Setups=("actpass", "none"), Dirs=("sendrecv", "sendonly"),
              Muxes=(True, False), menus=menus, sim=sim, **ALL_CFG)
     d.update(kw)
@@ -36,22 +36,28 @@ SMALL = ("AudioPtsSmall", "VideoPtsSmall", "ExtSmall")
 ALL_DIRS = ("sendrecv", "sendonly", "recvonly", "inactive")
 ALL_SETUPS = ("actpass", "active", "passive", "none")
 
+NEW_DIMS = dict(Sims=(True, False), Port0s=(True, False), Extras=("none", "sip", "browser"))
 TIERS = {
     "quick": [
         # exhaustive: every single-section offer of the small menus x mid scheme x bundle, for every mode,
         # capability profile and first/subsequent negotiation
         scen("exhaustive/1-section", 1, SMALL, Compats=("Standard",), Pres=("none",), Negs=("first", "subsequent")),
-        # random sample of the large space: 1..3 sections, full menus, every configuration dimension
+        # pseudo-random samples of the large space (full menus incl. RTX-heavy video, simulcast/rid, rejected sections,
+        # extra peer lines; every configuration dimension; first/subsequent/grow/swapped negotiation)
         scen("random/1-3-sections", 3, FULL, sim=5000, Dirs=ALL_DIRS, Setups=ALL_SETUPS,
-             BundleModes=("none", "all", "first2")),
+             BundleModes=("none", "all", "first2"), **NEW_DIMS),
+        scen("random/4-6-sections", 6, FULL, sim=1500, MinSec=4, Dirs=ALL_DIRS, Setups=ALL_SETUPS,
+             BundleModes=("none", "all", "first2"), **NEW_DIMS),
     ],
     "thorough": [
         scen("exhaustive/1-section/full", 1, FULL, Dirs=ALL_DIRS, Setups=ALL_SETUPS, Pres=("none", "audio_video"),
              Compats=("Standard",), Muxes=(True,), Negs=("first", "subsequent")),
         scen("exhaustive/1-section/compat", 1, SMALL, Pres=("none", "audio", "dc"), Negs=("first", "subsequent")),
-        scen("exhaustive/2-sections", 2, SMALL, Compats=("Standard",), Pres=("none",)),
+        scen("exhaustive/1-section/variants", 1, SMALL, Compats=("Standard",), Pres=("none",), Caps=("default", "custom"),
+             Negs=("first", "swapped"), **NEW_DIMS),
+        scen("exhaustive/2-sections", 2, SMALL, Compats=("Standard",), Pres=("none",), Negs=("first", "subsequent", "grow")),
         scen("random/1-6-sections", 6, FULL, sim=300000, Dirs=ALL_DIRS, Setups=ALL_SETUPS,
-             BundleModes=("none", "all", "first2")),
+             BundleModes=("none", "all", "first2"), **NEW_DIMS),
     ],
 }
 
@@ -72,7 +78,11 @@ def write_cfg(path, sc, invariants, deviations="{}"):
     with open(path, "w") as f:
         f.write(f"""SPECIFICATION Spec
 CONSTANTS
+  MinSec = {sc['MinSec']}
   MaxSec = {sc['MaxSec']}
+  Sims = {S(sc['Sims'])}
+  Port0s = {S(sc['Port0s'])}
+  Extras = {S(sc['Extras'])}
   Kinds = {S(sc['Kinds'])}
   MidSchemes = {S(sc['MidSchemes'])}
   BundleModes = {S(sc['BundleModes'])}
@@ -229,20 +239,22 @@ def classify(ck, records, verdicts, label, stats):
             bump("Same*: more than one section", len(osecs) > 1)
             if r.get("roundtrip_reordered"):
                 stats["roundtrip_reordered"] += 1
+            for line in r.get("text_lost", []):
+                tl = stats.setdefault("text_lost", {})
+                tl[line] = tl.get(line, 0) + 1
             for rule in v.get("ext", []):
-                stats.setdefault("ext", {})
-                k = f"{rule} ({', '.join(sorted({o['kind'] for o in r['offer']['secs'] if o['kind'] in ('application', 'image')}))})"
-                if k not in stats["ext"]:
-                    stats["ext"][k] = {"records": 0, "example": {"offer_fmts": [o["fmts"] for o in r["offer"]["secs"]],
-                                                                 "answer_fmts": [a.get("fmts") for a in r["answer"]["secs"]]}}
-                stats["ext"][k]["records"] += 1
+                e = stats.setdefault("ext", {}).setdefault(rule, {"records": 0, "example": {
+                    "cfg": r["cfg"],
+                    "offer": [[o["kind"], o["port0"], o.get("sim"), o["fmts"]] for o in r["offer"]["secs"]],
+                    "answer": [[a["kind"], a["port0"], a.get("sim"), a.get("fmts")] for a in r["answer"]["secs"]]}})
+                e["records"] += 1
             if not v["failed"]:
                 continue
             stats["invalid"] += 1
             kinds = {}
             for rule, kind in v["kinds"]:
                 kinds.setdefault(rule, set()).add(kind)
-            case = {"offer": r["offer"], "cfg": r["cfg"], "prev": r.get("prev"), "scenario": label}
+            case = {"offer": r["offer"], "cfg": r["cfg"], "prev": r.get("prev"), "extras": r.get("extras", "none"), "scenario": label}
             for rule in v["failed"]:
                 for kind in sorted(kinds.get(rule, {"-"})):
                     rec = {"rule": rule, "kind": kind, "case": case, "answer": r["answer"],
@@ -279,11 +291,14 @@ def run(tier):
     check_witnesses(ck)
     attach_texts(ck)
     ck.notes.append({"rules_exercised_on_accepted_records": stats.get("exercised", {})})
-    for k, e in stats.get("ext", {}).items():
-        ck.drift.append({"what": "EXT rule " + k, **e})
+    if stats.get("text_lost"):
+        ck.drift.append({"what": "EXT: lines of a parsed peer description that print(parse(text)) does not reproduce "
+                                 "(the value round trip parse(print(d)) = d still holds)", "line_prefixes": stats["text_lost"]})
     if stats["roundtrip_reordered"]:
         ck.drift.append({"what": "parse(print(d)) equals d only up to the relative order of attributes with different "
                                  "keys (transport attributes are printed first)", "records": stats["roundtrip_reordered"]})
+    for k, e in sorted(stats.get("ext", {}).items()):
+        ck.drift.append({"what": "EXT rule " + k + " (sections as [kind, port0, simulcast, formats])", **e})
     ck.cov["traces_validated_against_impl"] = stats["accepted"]
     ck.cov["evaluations"] = stats["records"]
     ck.cov["distinct_nontrivial"] = stats["accepted"]
@@ -318,8 +333,8 @@ def attach_texts(ck):
         return
     todo = todo[:200]
     op = os.path.join(ck.dir, "examples_offers.ndjson")
-    vlib.write_ndjson(op, [{"offer": r["case"]["offer"], "cfg": r["case"]["cfg"], "prev": r["case"].get("prev") or r["case"]["offer"]}
-                           for r in todo])
+    vlib.write_ndjson(op, [{"offer": r["case"]["offer"], "cfg": r["case"]["cfg"], "prev": r["case"].get("prev") or r["case"]["offer"],
+                            "extras": r["case"].get("extras", "none")} for r in todo])
     out = os.path.join(ck.dir, "examples_records.ndjson")
     p = vlib.run_bin("answer", [op, out, "2"], timeout=600, env={"VERIF_KEEP_SDP": "1"})
     if p.returncode == 0:
@@ -353,7 +368,8 @@ def replay(path):
         rec = json.load(f)
     case = rec["record"]["case"]
     op = os.path.join(ck.dir, "replay_offer.ndjson")
-    vlib.write_ndjson(op, [{"offer": case["offer"], "cfg": case["cfg"], "prev": case.get("prev") or case["offer"]}])
+    vlib.write_ndjson(op, [{"offer": case["offer"], "cfg": case["cfg"], "prev": case.get("prev") or case["offer"],
+                            "extras": case.get("extras", "none")}])
     records = record(ck, op, "replay", 2)
     verdicts = validate(ck, records, "replay", "replay")
     stats = dict(records=0, accepted=0, not_accepted=0, invalid=0, roundtrip_reordered=0)
